@@ -1516,6 +1516,14 @@ func c13Corpus() map[string][]c13Op {
 		"revoke_then_paged_backfill":  {uch(1), P(1, 1), P(2, 2), P(3, 2), pull(0), uch(), uch(2), pull(1), pull(1), pull(1), pull(1), pull(0)},
 		"revoke_grant_same_seq_paged": {uch(1), P(1, 1), P(2, 1), P(3, 2), P(4, 2), pull(0), uch(2), pull(1), pull(1), pull(1), pull(1), pull(1), pull(0)},
 		"role_revoke_then_paged_backfill": {rch(1, 1), uro(1), P(1, 1), P(2, 2), P(3, 2), P(4, 2), pull(0), uro(), rch(2, 2), uro(2), pull(2), pull(1), pull(1), pull(0)},
+		// the histories of C13_Refuted.v
+		"revocation_token_jump": {uch(1, 4), P(1, 4), pull(0), uch(1), P(2, 1), P(1, 4), pull(1), pull(0)},
+		// a held role is deleted after a document of its channel was updated past the client's position
+		"role_delete_doc_updated":  {rch(1, 1), uro(1), P(1, 1), pull(0), P(1, 1), {Kind: "delrole", Who: 1}, pull(0)},
+		"role_delete_then_update":  {rch(1, 1), uro(1), P(1, 1), pull(0), {Kind: "delrole", Who: 1}, P(1, 1), pull(0)},
+		"role_lost_doc_updated":    {rch(1, 1), uro(1), P(1, 1), pull(0), P(1, 1), uro(), pull(0)},
+		"role_chan_lost_doc_updated": {rch(1, 1), uro(1), P(1, 1), pull(0), P(1, 1), rch(1), pull(0)},
+		"user_chan_lost_doc_updated": {uch(1), P(1, 1), pull(0), P(1, 1), uch(), pull(0)},
 		"two_grants_paged":            {P(1, 1), P(2, 1), P(3, 2), P(4, 2), uch(1), pull(1), uch(1, 2), pull(1), pull(1), pull(1), pull(1), pull(0)},
 		"regrant_after_move":   {uch(1), P(1, 1), pull(0), uch(), P(1, 2), uch(1), pull(0)},
 	}
